@@ -47,7 +47,7 @@ def literal(s: str, a: int) -> int:
 
 
 # ------------------------------------------------------------------------------------------------ token templates
-TOKENS = ["ab", "{A}", "{S.X}", "{L.0}", "{:p:}", "\\{", "\\}", "-"]
+TOKENS = ["ab", "{A}", "{S.X}", "{L.0}", "{:p:}", "\\{", "\\}", "-", ""]
 
 
 def _vals(kind, n, s, ref):
@@ -66,10 +66,10 @@ def _vals(kind, n, s, ref):
     return "q{" + ref + "}"
 
 
-@harness("C09", lemma="tokens", cubes={"t0": list(range(len(TOKENS))), "t1": list(range(len(TOKENS))), "t2": [0, 1, 4, 5]},
+@harness("C09", lemma="tokens", cubes={"t0": list(range(len(TOKENS) - 1)), "t1": list(range(len(TOKENS))), "t2": [0, 1, 4, 5, 8]},
          pre=["0 <= ka <= 2", "0 <= kx <= 2", "len(sa) <= 1", "len(sb) <= 1", "-9 <= n <= 99"],
          example=dict(t0=1, t1=4, t2=1, pa=True, ka=2, px=True, kx=1, pb=True, n=7, sa="u", sb="w", pp=True), timeout=300,
-         bounds="template text = 3 tokens out of " + repr(TOKENS) + " (third token from 4 of them: 256 texts); only the options a text "
+         bounds="template text = 3 tokens out of " + repr(TOKENS) + " (the empty token included, so that a text can consist of exactly one reference; 360 texts); only the options a text "
                 "(transitively) mentions are made symbolic: A = string (any unicode, len <= 1) / templated reference '{B}' / absent; S.X "
                 "= int in -9..99 / templated text 'q{B}' / absent; B = string or absent; L.0 = 'l0'; parameter p = Option('PV') present "
                 "or absent (reference depth text -> A -> B)",
@@ -197,5 +197,40 @@ def option_values(shape: int, pb: bool, kb: int, sb: str, n: int, pc: bool, dflt
     if keys[0] == "ok":
         return 0
     if ex[0] != "ok" or exp[1] not in ex[1]:
+        return 0
+    return 2
+
+
+@harness("C09", lemma="keys-after-failure", cubes={"what": [0, 1, 2]}, pre=["len(sb) <= 1"], example=dict(what=0, sb="w"), timeout=300,
+         bounds="the same template text (Template, Option with a templated value, Option with a templated default) inspected with keys() "
+                "/ explain() first while a referenced key is missing (the call fails), then again with the options completed",
+         what="keys() and explain() report every key the substitution reads whatever was inspected (and failed) before")
+def keys_after_failure(what: int, sb: str) -> int:
+    if not plain(sb):
+        return 1
+    incomplete = {"A": "{B}-{S.X}", "S": {"X": "{C}"}}
+    complete = {"A": "{B}-{S.X}", "S": {"X": "{C}"}, "B": sb, "C": "c"}
+    if what == 0:
+        node = Template("<{A}>")
+        want = {"A", "B", "S.X", "C"}
+    elif what == 1:
+        node = Option("A")
+        want = {"A", "B", "S.X", "C"}
+    else:
+        node = Option("Z", default="{A}!")
+        want = {"A", "B", "S.X", "C"}
+    first = outcome(lambda: node.keys(incomplete))
+    first_ex = outcome(lambda: node.explain(incomplete))
+    second = outcome(lambda: node.keys(complete))
+    second_ex = outcome(lambda: node.explain(complete))
+    val = outcome(lambda: node(complete))
+    note("first keys()", first, "then with complete options: keys", second, "explain", second_ex, "value", val)
+    if first[0] == "ok":
+        return 0
+    if second[0] != "ok" or not want <= second[1]:
+        return 0
+    if second_ex[0] != "ok" or not want <= second_ex[1]:
+        return 0
+    if val[0] != "ok":
         return 0
     return 2
